@@ -1,0 +1,14 @@
+//go:build !verif
+// +build !verif
+
+package s3mem
+
+import "github.com/johannesboyne/gofakes3"
+
+// Trace hooks for trace validation; compiled in with the build tag "verif"
+// only (see verif_trace.go).
+
+func (db *Backend) traceBucket(op, bucketName string)                                {}
+func (db *Backend) traceKey(op, bucketName, key, versionID string)                   {}
+func (db *Backend) traceKeys(op, bucketName string, keys []string)                   {}
+func (db *Backend) traceVersions(op, bucketName string, objects []gofakes3.ObjectID) {}
